@@ -35,6 +35,17 @@ var propDefs = map[string]*PropDef{
 			"TemplateSet.Debug is read without the lock (documented by upstream as the user's duty)",
 		},
 	},
+	"C18": {
+		ID: "C18", Kinds: []string{}, Funcs: "all", Floor: 25,
+		Unmech: []string{
+			"the reference definitions are the spec functions (pyLo/pyHi ...) and postconditions in the contract file, written from the property statement; that those are the Django/Python semantics is by inspection",
+			"string-shaping filters that delegate to the library (upper/lower/title/cut/join/split/linebreaksbr/date/stringformat/urlize/linebreaks/truncate*_html) are covered only by the safety sweep, not by functional contracts",
+		},
+		Assume: []string{
+			"Value accessors are functions of the wrapped reflect.Value (clauses labelled assume-): RVIntegerOf, RVStringOf, RVFloatOf, RVLenOf, RVIsTrueOf are uninterpreted",
+			"strings.Repeat/Fields/Split/TrimSpace behave as documented",
+		},
+	},
 	"C20": {
 		ID: "C20", Kinds: []string{"lock", "guard"}, Funcs: "all", Floor: 20,
 		Unmech: []string{
